@@ -61,8 +61,18 @@ def sig_stub(path, qualname, handler, module=None):
     return ns[fd.name]
 
 
+_RD_CACHE = {}
+
+
 def real_defaults(path, qualname, module):
     """parameter -> default value of the real function (evaluated in the real module)"""
+    key = (path, qualname)
+    if key not in _RD_CACHE:
+        _RD_CACHE[key] = _real_defaults(path, qualname, module)
+    return dict(_RD_CACHE[key])
+
+
+def _real_defaults(path, qualname, module):
     import ast
     from pyvc import cut
     fd, _ = cut.get_source_function(os.path.join(REPO, path), qualname)
